@@ -519,61 +519,72 @@ func r03HalfOpenTables(c *core.Ctx) {
 			exclusive[i] = true
 		}
 	}
-	// (ii) isExclusiveEdge
+	// (ii) isExclusiveEdge: its table over the edge numbers, by folding the function for each of them (the form --
+	// == chain, switch, arithmetic -- does not matter)
 	{
-		info := ex.Pkg.TypesInfo
 		got := map[int]bool{}
-		shape := false
-		if ret, ok := ex.Decl.Body.List[len(ex.Decl.Body.List)-1].(*ast.ReturnStmt); ok && len(ret.Results) == 1 {
-			shape = true
-			for _, dj := range disjuncts(ret.Results[0]) {
-				be, ok := ast.Unparen(dj).(*ast.BinaryExpr)
-				if !ok || be.Op != token.EQL {
-					shape = false
-					continue
-				}
-				if k, ok := core.ConstInt(info, be.Y); ok {
-					got[int(k)] = true
-				} else {
-					shape = false
+		why := ""
+		if ex.SSA == nil {
+			why = "no SSA"
+		} else {
+			for i := int64(0); i < 8 && why == ""; i++ {
+				res, oc, err := evalPure(ex.SSA, []interface{}{i}, 0)
+				switch {
+				case err != nil:
+					why = err.Error()
+				case oc != "return" || len(res) != 1:
+					why = "does not return a truth value"
+				default:
+					bv, ok := res[0].(bool)
+					if !ok {
+						why = "does not return a truth value"
+					} else if i < 4 {
+						if bv {
+							got[int(i)] = true
+						}
+					} else if bv != got[int(i%4)] {
+						why = "is not periodic in the edge number modulo 4"
+					}
 				}
 			}
 		}
-		eq := shape && len(got) == len(exclusive)
+		eq := why == "" && len(got) == len(exclusive)
 		for k := range got {
 			if !exclusive[k] {
 				eq = false
 			}
 		}
-		c.Check(R, "exclusive-edges-are-right-and-top/pointindex.isExclusiveEdge", ex.Decl.Pos(), eq,
-			fmt.Sprintf("accepts edge indices %v = the sides on MaxX/MaxY", keysInt(got)), fmt.Sprintf("isExclusiveEdge accepts %v but the edges lying on MaxX/MaxY are %v (sides by index: %v): border ownership is wrong for some side", keysInt(got), keysInt(exclusive), sides))
+		if why != "" {
+			c.Unknown(R, "exclusive-edges-are-right-and-top/pointindex.isExclusiveEdge", ex.Decl.Pos(), "isExclusiveEdge "+why)
+		} else {
+			c.Check(R, "exclusive-edges-are-right-and-top/pointindex.isExclusiveEdge", ex.Decl.Pos(), eq,
+				fmt.Sprintf("accepts edge indices %v = the sides on MaxX/MaxY", keysInt(got)), fmt.Sprintf("isExclusiveEdge accepts %v but the edges lying on MaxX/MaxY are %v (sides by index: %v): border ownership is wrong for some side", keysInt(got), keysInt(exclusive), sides))
+		}
 	}
-	// (iii) getExclusiveTip
+	// (iii) getExclusiveTip: which endpoint it returns per edge number, by folding the function with a symbolic edge
 	{
-		info := tip.Pkg.TypesInfo
 		got := map[int]int{} // edge index -> endpoint index
-		ast.Inspect(tip.Decl.Body, func(n ast.Node) bool {
-			is, ok := n.(*ast.IfStmt)
-			if !ok {
-				return true
-			}
-			be, ok := ast.Unparen(is.Cond).(*ast.BinaryExpr)
-			if !ok || be.Op != token.EQL {
-				return true
-			}
-			k, okK := core.ConstInt(info, be.Y)
-			if !okK || len(is.Body.List) != 1 {
-				return true
-			}
-			if ret, ok := is.Body.List[0].(*ast.ReturnStmt); ok && len(ret.Results) == 1 {
-				if ix, ok := ret.Results[0].(*ast.IndexExpr); ok {
-					if j, okJ := core.ConstInt(info, ix.Index); okJ {
-						got[int(k)] = int(j)
-					}
+		panicsFor := map[int]bool{}
+		why := ""
+		if tip.SSA == nil {
+			why = "no SSA"
+		} else {
+			for i := int64(0); i < 4 && why == ""; i++ {
+				res, oc, err := evalPure(tip.SSA, []interface{}{i, evSym("edge")}, 0)
+				switch {
+				case err != nil:
+					why = err.Error()
+				case oc == "panic":
+					panicsFor[int(i)] = true
+				case len(res) == 1 && res[0] == evSym("edge[0]"):
+					got[int(i)] = 0
+				case len(res) == 1 && res[0] == evSym("edge[1]"):
+					got[int(i)] = 1
+				default:
+					why = fmt.Sprintf("returns something other than an endpoint of the edge for edge %d", i)
 				}
 			}
-			return true
-		})
+		}
 		bad := ""
 		ninc := 0
 		for i, e := range edges {
@@ -595,15 +606,18 @@ func r03HalfOpenTables(c *core.Ctx) {
 				bad += fmt.Sprintf("tip of edge %d (%s) is corner (%s,%s) which is owned by the pixel; ", i, sides[i], k.x, k.y)
 			}
 		}
-		panics := false
-		ast.Inspect(tip.Decl.Body, func(n ast.Node) bool {
-			if call, ok := n.(*ast.CallExpr); ok && core.IsBuiltinCall(info, call, "panic") {
-				panics = true
+		panics := true
+		for i := range edges {
+			if exclusive[i] && !panicsFor[i] {
+				panics = false
 			}
-			return true
-		})
-		c.Check(R, "exclusive-tip-is-the-unowned-endpoint/pointindex.getExclusiveTip", tip.Decl.Pos(), bad == "" && panics && ninc == 2,
-			fmt.Sprintf("edge -> endpoint %v: each is the endpoint lying on MaxX/MaxY", got), "getExclusiveTip: "+bad)
+		}
+		if why != "" {
+			c.Unknown(R, "exclusive-tip-is-the-unowned-endpoint/pointindex.getExclusiveTip", tip.Decl.Pos(), "getExclusiveTip "+why)
+		} else {
+			c.Check(R, "exclusive-tip-is-the-unowned-endpoint/pointindex.getExclusiveTip", tip.Decl.Pos(), bad == "" && panics && ninc == 2,
+				fmt.Sprintf("edge -> endpoint %v: each is the endpoint lying on MaxX/MaxY", got), "getExclusiveTip: "+bad)
+		}
 	}
 	// (iv) containsPoint
 	{
